@@ -521,8 +521,15 @@ def run_case(p):
                 return {'condition': repr(cond), 'domain': repr(doms[0]), 'got': repr(got), 'want': repr(want)}
         else:
             # the condition must mention every variable for a pure join reading
-            got, want, q = O.run_multi(doms, cond)
-            ok = sorted(got) == sorted(want) if p.get('count', True) else set(got) == set(want)
+            sel = None
+            if p.get('project'):
+                # C02, projection: only some of the variables are selected; the SET of rows is the projection of the
+                # satisfying assignments
+                r2 = random.Random(p['seed'] * 7 + 1)
+                k = r2.randrange(1, len(doms))
+                sel = sorted(r2.sample(range(len(doms)), k))
+            got, want, q = O.run_multi(doms, cond, sel)
+            ok = sorted(got) == sorted(want) if (p.get('count', True) and sel is None) else set(got) == set(want)
             if not ok:
                 return {'condition': repr(cond), 'domains': repr(doms), 'got_rows': len(got), 'want_rows': len(want),
                         'missing': len(set(want) - set(got)), 'extra': len(set(got) - set(want))}
@@ -857,14 +864,23 @@ def run_infer_case(p):
     return None
 
 
-def gen_rule_tree(rng, budget, depth):
+def gen_rule_tree(rng, budget, depth, nvars=1):
     """random rule: {'cond', 'tag', 'body': [(kind, rule)...]} - the body lists, in order, the `with refinement(..)` /
     `with alternative(..)` blocks opened inside the rule's own block"""
     counter = [0]
 
     def mk(d):
         counter[0] += 1
-        r = {'cond': O.gen_cond(rng, 1, 1, vocab=('cmp', 'name'), neg=False), 'tag': 'T%d' % counter[0], 'body': []}
+        if nvars > 1 and counter[0] == 1:
+            # the base rule relates the variables; branch conditions look at either of them
+            c = ('cmp', rng.choice(['le', 'ge', 'ne', 'eq']), ('attr', 0, 'size'), ('attr', 1, 'size'))
+        elif nvars > 1:
+            v = rng.randrange(nvars)
+            c = rng.choice([('cmp', rng.choice(['lt', 'ge', 'ne']), ('attr', v, 'size'), ('lit', rng.choice([1, 2, 3]))),
+                            ('cmp', rng.choice(['eq', 'ne']), ('attr', v, 'name'), ('lit', rng.choice('abc')))])
+        else:
+            c = O.gen_cond(rng, 1, 1, vocab=('cmp', 'name'), neg=False)
+        r = {'cond': c, 'tag': 'T%d' % counter[0], 'body': []}
         if d > 0:
             for _ in range(rng.choice([0, 1, 1, 2, 3])):
                 if counter[0] >= budget:
@@ -876,6 +892,21 @@ def gen_rule_tree(rng, budget, depth):
 
 def rule_shape(r):
     return 'R(' + ','.join(k + ':' + rule_shape(s)[2:-1] for k, s in r['body']) + ')'
+
+
+def selector_behind_cache_pattern(tree, nvars):
+    """the shape the recorded finding KF-C12-selector-behind-result-cache needs: an alternative branch S that has a
+    refinement (so the else-if that holds S has a conclusion selector as its right operand) and whose own condition does
+    not read every variable of the rule (so two matches can agree on S's variables and the second is replayed from the
+    else-if's result cache, which stores the truth value only, not the selected conclusion)"""
+    def walk(r):
+        for k, sub in r['body']:
+            if k == 'alt' and any(k2 == 'ref' for k2, _ in sub['body']) and len(O.vars_of(sub['cond'])) < nvars:
+                return True
+            if walk(sub):
+                return True
+        return False
+    return walk(tree)
 
 
 def rdr_reference(rule, e):
@@ -908,29 +939,43 @@ def run_rdrtree_case(p):
     from entity_query_language import symbolic_mode, rule_mode, let, an, entity, Add, refinement, alternative
     O.reset_registry()
     rng = random.Random(p['seed'])
+    nv = p.get('nvars', 1)
     d0 = O.make_domain(rng, p.get('n', 5))
-    tree = gen_rule_tree(rng, p.get('rules', 5), p.get('depth', 2))
+    d1 = O.make_domain(rng, p.get('n', 5)) if nv > 1 else None
+    (O.enable_caching if p.get('caching', True) else O.disable_caching)()
+    tree = gen_rule_tree(rng, p.get('rules', 5), p.get('depth', 2), nv)
     shape = rule_shape(tree)
     try:
         x = let(type_=O.Item, domain=d0)
+        xs = [x] + ([let(type_=O.Item, domain=d1)] if nv > 1 else [])
         with symbolic_mode():
-            q = an(entity(v := let(type_=O.Built), O.build(tree['cond'], [x])))
+            q = an(entity(v := let(type_=O.Built), O.build(tree['cond'], xs)))
 
         def emit(r):
-            Add(v, O.Built(a=x, tag=r['tag']))
+            Add(v, O.Built(a=xs[0], b=(xs[1] if nv > 1 else None), tag=r['tag']))
             for k, sub in r['body']:
-                with (refinement if k == 'ref' else alternative)(O.build(sub['cond'], [x])):
+                with (refinement if k == 'ref' else alternative)(O.build(sub['cond'], xs)):
                     emit(sub)
         with rule_mode(q):
             emit(tree)
-        got = sorted((d0.index(g.a), g.tag) for g in q.evaluate())
-        want = sorted((i, rdr_reference(tree, {0: o})) for i, o in enumerate(d0) if rdr_reference(tree, {0: o}) is not None)
+        if nv > 1:
+            got = sorted((d0.index(g.a), d1.index(g.b), g.tag) for g in q.evaluate())
+            want = sorted((i, j, rdr_reference(tree, {0: a, 1: b})) for i, a in enumerate(d0) for j, b in enumerate(d1)
+                          if rdr_reference(tree, {0: a, 1: b}) is not None)
+        else:
+            got = sorted((d0.index(g.a), g.tag) for g in q.evaluate())
+            want = sorted((i, rdr_reference(tree, {0: o})) for i, o in enumerate(d0) if rdr_reference(tree, {0: o}) is not None)
     except Exception as e:  # noqa
         return {'shape': shape, 'exception': repr(e), 'trace': traceback.format_exc(limit=5), 'signature_kind': shape + ':exception'}
+    finally:
+        O.enable_caching()
     if got != want:
         def show(r):
             return {'cond': repr(r['cond']), 'tag': r['tag'], 'body': [(k, show(s_)) for k, s_ in r['body']]}
-        return {'shape': shape, 'tree': show(tree), 'got': got, 'want': want, 'signature_kind': shape}
+        kind = shape
+        if p.get('caching', True) and selector_behind_cache_pattern(tree, nv):
+            kind = 'cache-on:refined-alternative-replayed-from-the-result-cache'
+        return {'shape': shape, 'tree': show(tree), 'got': got, 'want': want, 'signature_kind': kind}
     return None
 
 
